@@ -99,6 +99,8 @@ class FnAnalysis:
         self.phi_ops = {}      # phi term -> {pred: term}
         self.unsupported = []  # notes about constructs treated as Fresh
         self.hints = {}
+        self._record = True
+        self._path_calls = []
         self._run()
 
     def hint(self, term, ty):
@@ -619,9 +621,11 @@ class FnAnalysis:
         self.feasible = set(out_states.keys())
         self.rounds = rounds
 
-    def _transfer(self, b, st):
+    def _transfer(self, b, st, record=True):
         blk = self.blocks[b]
-        self.calls_by_block.pop(b, None)
+        self._record = record
+        if record:
+            self.calls_by_block.pop(b, None)
         for s in blk["stmts"]:
             if s["k"] == "assign":
                 val = self.rvalue(st, s["rv"], b)
@@ -633,14 +637,16 @@ class FnAnalysis:
                 self.unsupported.append("stmt %s in bb%d" % (s.get("text"), b))
         t = blk["term"]
         k = t["k"]
-        self.exit_env[b] = dict(st.env)
-        self.exit_facts[b] = st.facts
+        if record:
+            self.exit_env[b] = dict(st.env)
+            self.exit_facts[b] = st.facts
         outs = {}
         if k == "goto":
             outs[t["target"]] = st
         elif k == "switch":
             d = self.operand(st, t["discr"])
-            self.switches[b] = d
+            if record:
+                self.switches[b] = d
             dty = norm(t["discr_ty"])
             taken = None
             if d.op == "const":
@@ -672,8 +678,9 @@ class FnAnalysis:
         elif k == "assert":
             cond = self.operand(st, t["cond"])
             ops = [self.operand(st, o) for o in t["ops"]]
-            self.asserts = [a for a in self.asserts if a["block"] != b]
-            self.asserts.append({"block": b, "cond": cond, "expected": t["expected"], "kind": t["kind"], "ops": ops,
+            if record:
+                self.asserts = [a for a in self.asserts if a["block"] != b]
+            (self.asserts if record else []).append({"block": b, "cond": cond, "expected": t["expected"], "kind": t["kind"], "ops": ops,
                                  "facts": st.facts, "span": t["span"], "term": t})
             fs = self.assume_bool(st.facts, cond, t["expected"])
             outs[t["target"]] = State(st.env, fs)
@@ -791,7 +798,8 @@ class FnAnalysis:
             self.hint(res, dest_ty)
             self._havoc_mut_args(st, site, t, args, None)
             self.write(st, dest_lv, res)
-            self.calls_by_block[b] = CallSite(b, t, {"qual": "<indirect>"}, args, res, facts_before, [])
+            if self._record:
+                self.calls_by_block[b] = CallSite(b, t, {"qual": "<indirect>"}, args, res, facts_before, [])
             return
         q = callee.get("resolved") or callee["qual"]
         nq = norm(q)
@@ -810,14 +818,19 @@ class FnAnalysis:
             off0 = self.read(st, off_lv)
             data = args[2]
             res = T.call(key, (), (args[0], off0, data))
-            self.write(st, off_lv, Term("okelse", res, T.bin("Add", off0, T.const("usize", width), "usize"), off0))
+            adv = T.bin("Add", off0, T.const("usize", width), "usize")
+            self.prog.noovf.add(adv)
+            self.write(st, off_lv, Term("okelse", res, adv, off0))
         else:
             res = self.prog.model_call(self, st, site, callee, nq, dq, generics, args, arg_tys, arg_lvs, mut_idx, t)
         self.hint(res, dest_ty)
         self.write(st, dest_lv, res)
         cs = CallSite(b, t, callee, args, res, facts_before, arg_lvs)
         cs.pointee_before = pointee_before
-        self.calls_by_block[b] = cs
+        if self._record:
+            self.calls_by_block[b] = cs
+        else:
+            self._path_calls.append(cs)
 
     def _operand_ty(self, o):
         if "copy" in o:
@@ -926,6 +939,34 @@ class FnAnalysis:
                 work.append((rebuild(t, mp), env if env is not None else est.env, frozenset(nf)))
         return out
 
+    def paths(self, limit=512):
+        """Enumerate the acyclic entry-to-return paths of a loop-free body, re-running the transfer functions along each
+        path without merging.  Returns a list of (returned term, final State, [CallSite,...]) or None (loops / too many)."""
+        if self.loops:
+            return None
+        out = []
+        init = self._initial_state()
+        work = [(0, State(dict(init.env), init.facts), [])]
+        n = 0
+        while work:
+            b, st, calls = work.pop()
+            n += 1
+            if n > limit * 40:
+                return None
+            self._path_calls = []
+            outs = self._transfer(b, st, record=False)
+            calls = calls + self._path_calls
+            t = self.blocks[b]["term"]
+            if t["k"] == "return":
+                out.append((self.read(st, (("L", 0), ())), st, calls))
+                if len(out) > limit:
+                    return None
+                continue
+            for s_, sst in outs.items():
+                work.append((s_, State(dict(sst.env), sst.facts), calls))
+        self._record = True
+        return out
+
     def value_at(self, st, lv):
         return self.read(st, lv)
 
@@ -942,6 +983,7 @@ class Program:
     def __init__(self, facts):
         self.facts = facts
         self._an = {}
+        self.noovf = set()   # Add terms that are cursors of successful checked reads (cannot have wrapped)
         self._hints = {}
         self._stack = []
         self.callee_table = None
@@ -1021,6 +1063,16 @@ class Program:
                 return r
             an._havoc_mut_args(st, site, t, args, None)
             return T.fresh(site, "ret")
+        # 2b. ParseAt::parse_at called on a type parameter: every in-crate impl consumes exactly size_for(class) bytes on
+        #     success (rule C02 decode-size checks that per impl and class)
+        if dq == "parse::ParseAt::parse_at" and callee.get("resolved") is None and mut_idx == [2]:
+            off_lv = arg_lvs[2]
+            off0 = an.read(st, off_lv)
+            R = T.call(dq, generics, [args[0], args[1], T.refval(off0), args[3]])
+            adv = T.bin("Add", off0, T.call("parse::ParseAt::size_for", generics[:1], [args[1]]), "usize")
+            self.noovf.add(adv)
+            an.write(st, off_lv, Term("okelse", R, adv, T.fresh(site, "arg2:err")))
+            return R
         # 3. external or unresolved callee
         if dq in ("iter::Iterator::position", "iter::Iterator::rposition") and args and args[0].op == "ref":
             it = an.read(st, arg_lvs[0])
